@@ -101,6 +101,10 @@ func ToGo(v rc.Val) any {
 	case rc.KMap:
 		out := make(map[any]any, len(v.M))
 		for _, e := range v.M {
+			if e.K.K == rc.KBytes {
+				out[cborByteString(e.K.B)] = ToGo(e.V)
+				continue
+			}
 			out[ToGo(e.K)] = ToGo(e.V)
 		}
 		return out
